@@ -4,6 +4,7 @@ import hmac
 import random
 from ipaddress import ip_address
 
+from props import hdl
 from props import shellcommon as sc
 from sim.scenarios import Pair
 from sim.world import LoopEscape
@@ -169,7 +170,9 @@ def correspond(ctx):
         fails.append(Failure('correspondence', 'cookie:model-vs-code',
                              f'h={o["h"]} {o["variant"]}: implementation {cases[gi][1]} / model {model_out[-300:]}',
                              {'h': o['h'], 'variant': o['variant'], 'seed': o['seed']}))
-    return fails
+    # Props/C18H.v is stated about the endpoint model (Endpoint.v over Hdl.v): its tie is the endpoint-history
+    # correspondence, which includes the cookie_handshake history (flood, cookie challenge, retry, completion)
+    return fails + hdl.tie(ctx)
 
 
 def judge(o):
@@ -313,13 +316,13 @@ def replay(ctx, obj):
 
 
 CHECK = core.Check(
-    'C18', sc.CLUSTER, 'Props/C18.v', translate=sc.translate, correspond=correspond, oracle=oracle, replay=replay,
+    'C18', sc.CLUSTER, ['Props/C18.v', 'Props/C18H.v'], translate=sc.translate, correspond=correspond, oracle=oracle, replay=replay,
     deps=('lib',),
     rule='complete grid: half-open counts 7..13 x 10 request variants (no cookie, correct, corrupted, cookie replayed '
          'with another SPI / nonce / source address, two cookies in both orders, KE or NONCE missing), each built from the '
          "initiator's real IKE_SA_INIT request and sent to the real responder through main_loop; every case non-trivial; "
          'plus the initiator-side retry run',
-    trusted_base=sc.TRUSTED + ['HMAC-SHA256 is a Section variable of the theorems; the oracle recomputes the expected '
+    trusted_base=sc.TRUSTED + hdl.TRUSTED + ['HMAC-SHA256 is a Section variable of the theorems; the oracle recomputes the expected '
                                'cookie with hmac/hashlib independently'],
     assumptions=['"no DH work" is carried by the statement order of _process_ike_sa_negotiation_request (checked by the '
                  'translator: nothing but the three payload look-ups precedes the cookie test) and counted on the real '
